@@ -4,16 +4,16 @@ import "gosym/sym"
 
 func init() {
 	Register(&Spec{
-		ID:    "C08",
-		Level: "model_checking",
+		ID:          "C08",
+		Level:       "model_checking",
 		Explanation: "two-run (2-safety) bounded symbolic execution: the same symbolic content is loaded once from a fully delivering reader and once from a reader delivering in chunks of 1, 2, 3 or 7 bytes with the final data optionally returned together with io.EOF; metadata fields, ICC bytes, ICC error-ness and the success/error outcome of both runs are asserted equal on every feasible path. The ICC profile reader is compared between bytes.Reader and bufio.Reader over a chunked source",
 		Bounds: func(tier string) map[string]interface{} {
 			return map[string]interface{}{
-				"schedules":       "fixed chunk sizes {1,2,3,7} x data+EOF in one call {no,yes}; ICC additionally chunk 100",
-				"inputs":          "C05 skeletons with symbolic fields (k<=1 ancillary chunks/segments; WebP incl. VP8X+ICCP), arbitrary bytes N=24 (PNG), 11 (JPEG), 14 (WebP)",
-				"icc":             "128 symbolic header bytes + one tag of 6 symbolic bytes",
-				"zlib":            "stub, deterministic in its input",
-				"outside":         "random segment sizes, sizes 4095/4096/4097 (need inputs beyond the symbolic bound), unit-level arbitrary bufio state",
+				"schedules": "fixed chunk sizes {1,2,3,7} x data+EOF in one call {no,yes}; ICC additionally chunk 100",
+				"inputs":    "C05 skeletons with symbolic fields (k<=1 ancillary chunks/segments; WebP incl. VP8X+ICCP), arbitrary bytes N=24 (PNG), 11 (JPEG), 14 (WebP)",
+				"icc":       "128 symbolic header bytes + one tag of 6 symbolic bytes",
+				"zlib":      "stub, deterministic in its input",
+				"outside":   "random segment sizes, sizes 4095/4096/4097 (need inputs beyond the symbolic bound), unit-level arbitrary bufio state",
 			}
 		},
 		Runs: func(tier string, seed int64) []*Run {
@@ -23,6 +23,7 @@ func init() {
 				jn, pn = 14, 30
 			}
 			return []*Run{
+				{H: sym.Harness{Pkg: "meta/pngmeta", Func: "VerifHarness_C08_NegControl"}, NegControl: true},
 				{H: sym.Harness{Pkg: "meta/pngmeta", Func: "VerifHarness_C08_PNG_Arbitrary", SetGlobals: g(pn), Workers: 14}, ExpectReach: []string{"both-loaded"}, SamplePaths: 3},
 				{H: sym.Harness{Pkg: "meta/pngmeta", Func: "VerifHarness_C08_PNG_Skeleton"}, ExpectReach: []string{"both-loaded"}, SamplePaths: 3},
 				{H: sym.Harness{Pkg: "meta/jpegmeta", Func: "VerifHarness_C08_JPEG_Arbitrary", SetGlobals: g(jn)}, ExpectReach: []string{"both-loaded"}, SamplePaths: 3},
